@@ -734,6 +734,30 @@ theorem cl_afterConnect (proxy : Bool) (s : Sys) (hr : ReqOk s) : Cl s (afterCon
         (spec_modS ?_) (fun _ => cl_runLoop)) s4
       intro s; cl_leaf
 
+theorem cl_runLoopNoSel : Spec Cl runLoopNoSel := by
+  unfold runLoopNoSel
+  exact spec_tryC cl_po (spec_bind cl_po (cl_onLoopEnd _) (fun _ => cl_selClose)) cl_runFinally
+
+theorem cl_afterConnectNoSel (proxy : Bool) (s : Sys) (hr : ReqOk s) : Cl s (afterConnectNoSel proxy s).state := by
+  unfold afterConnectNoSel
+  refine bind_at cl_po (Cl.of_ext [] rfl rfl id) ?_
+  intro _ s1 e1
+  have hs1 : s1 = { s with sockOpen := true } := by cases e1; rfl
+  refine bind_at cl_po (cl_po.refl _) ?_
+  intro s2 s3 e2
+  cases e2
+  refine bind_at cl_po ?_ ?_
+  · have := weff_write s1.cfg.request none s1
+    rw [show closeLike s1.cfg.request none = false from by
+      rw [hs1]; simp only [closeLike, Bool.or_false]; exact hr] at this
+    exact this.cl
+  · intro r s4 _
+    split
+    · exact spec_bind cl_po cl_closeSocket (fun _ => cl_yieldEv _) s4
+    · refine spec_bind cl_po (cl_yieldConnected proxy) (fun _ => spec_bind cl_po
+        (spec_modS ?_) (fun _ => cl_runLoopNoSel)) s4
+      intro s; cl_leaf
+
 theorem cl_run (s : Sys) (hr : ReqOk s) : Cl s (run s).state := by
   unfold run
   refine bind_at cl_po (cl_yieldEv _ s) ?_
@@ -746,6 +770,7 @@ theorem cl_run (s : Sys) (hr : ReqOk s) : Cl s (run s).state := by
   | socketFail => exact cl_yieldEv _ _
   | otherFail => exact cl_yieldEv _ _
   | ok proxy => exact cl_afterConnect _ _ (by unfold ReqOk; rw [hcfg]; exact hr)
+  | selFail proxy => exact cl_afterConnectNoSel _ _ (by unfold ReqOk; rw [hcfg]; exact hr)
 
 /-- **the invariant holds at the end of every connection** -/
 theorem runAll_inv (cfg : Cfg) (react : React) (env : List EnvStep) (hreq : isCloseBytes cfg.request = false) :
